@@ -74,7 +74,7 @@ def shards(tier):
                         'depth': DEPTH[tier]})
     for i in range(4):
         out.append({'name': 'notification-codes-%d' % i, 'kind': 'notif', 'part': i, 'parts': 4})
-    nw = 150 if tier == 'quick' else 2500
+    nw = 150 if tier == 'quick' else 12000
     for i in range(4 if tier == 'quick' else 16):
         out.append({'name': 'walks-%d' % i, 'kind': 'walk', 'examples': nw, 'hypothesis': True,
                     'steps': 60 if tier == 'quick' else 110})
